@@ -592,12 +592,39 @@ def reader_map(prog, fn_path):
             for name, op in zip(rv["kind"]["fields"], rv["ops"]):
                 t = R.operand(op)
                 found = lookups_in(t, closure_tags)
+                if not found:
+                    # `let [a, b, ..] = arr;` with arr filled by `for (slot, tag) in arr.iter_mut().zip(TAGS) { *slot = f(tag) }`
+                    ev = _array_slot_value(fn, R, t)
+                    if ev is not None:
+                        found = lookups_in(ev, closure_tags)
                 if found:
                     out.setdefault(adt, {}).setdefault(name, [])
                     for x in found:
                         if x not in out[adt][name]:
                             out[adt][name].append(x)
     return out
+
+
+def _array_slot_value(fn, R, t):
+    """t = arr[k] of a local array whose slots are assigned in a loop over a literal table: the value stored in slot k"""
+    import bytesview
+    s = strip(t)
+    if s[0] != "index" or bytesview.const_eval(s[2]) is None:
+        return None
+    k = bytesview.const_eval(s[2])
+    want = tree_str(strip_deep(s[1]))
+    for n, ds in fn.defs().items():
+        for kind, payload, bi, si, place in ds:
+            if kind not in ("stmt", "call") or len(place["proj"]) != 1 or place["proj"][0]["k"] != "deref" or bi not in fn.cfg():
+                continue
+            tr = R.local(place["local"])
+            tr = tr[1] if tr[0] == "partial" else tr
+            val = R.rvalue(payload) if kind == "stmt" else R._call(payload, bi, 0, frozenset())
+            for slot, v in bytesview.table_instances([tr, val]):
+                sl = strip(slot)
+                if sl[0] == "index" and bytesview.const_eval(sl[2]) == k and tree_str(strip_deep(sl[1])) == want:
+                    return v
+    return None
 
 
 def lookups_in(t, closure_tags):
